@@ -1,5 +1,4 @@
 import Verif.Lemmas.Session
-import Verif.Lemmas.SessionId
 
 /-! # C19 — server session bookkeeping behaves like a map from unique ids to records
 
@@ -220,6 +219,41 @@ theorem c19_managers_independent (cfg : Cfg κ ν) (p : Store ι κ ν × Store 
         = (runFrom cfg p.2 ((xs.filter (fun y => !y.1)).map (·.2))).2 :=
   runPairFrom_proj cfg p xs
 
+/-- Nothing removes a session behind the caller's back, whatever the clock says: only
+`delete_session`, `cleanup_expired` and `clear_all_sessions` can make a live id disappear — every other
+operation (create, lookups, activity updates, listings, every dispatched message and initialize),
+at ANY clock value, hours or years after the previous one or before it, keeps every live session;
+and a session whose activity was just updated is there, stamped with the current clock value. -/
+theorem c19_no_silent_removal (cfg : Cfg κ ν) (s : Store ι κ ν) (now : Int) (op : Op ι κ ν)
+    (hop : (∀ i, op ≠ .delete i) ∧ (∀ a, op ≠ .cleanup a) ∧ op ≠ .clear) :
+    (∀ j ∈ keys s, j ∈ keys (step cfg s now op).1)
+    ∧ ∀ i, (touch s i now).2 = true →
+        ∃ r, get (touch s i now).1 i = some r ∧ r.last = now ∧ keys (touch s i now).1 = keys s := by
+  obtain ⟨hd, hc, hk⟩ := hop
+  constructor
+  · intro j hj
+    cases op with
+    | create id c v => simp only [step, keys_put]; split <;> simp_all
+    | get id => exact hj
+    | touch id => simp only [step, keys_touch]; exact hj
+    | delete id => exact absurd rfl (hd id)
+    | cleanup a => exact absurd rfl (hc a)
+    | list => exact hj
+    | clear => exact absurd rfl hk
+    | count => exact hj
+    | init sid id c rq => simp only [step, keys_put, keys_touchOpt]; split <;> simp_all
+    | request sid => simp only [step, keys_touchOpt]; exact hj
+    | initSilent sid id c rq => simp only [step, keys_put, keys_touchOpt]; split <;> simp_all
+    | message sid k => cases k <;> simp only [step, keys_touchOpt] <;> exact hj
+  · intro i hi
+    unfold touch at hi ⊢
+    cases hg : get s i with
+    | none => simp [hg] at hi
+    | some r =>
+      refine ⟨{ r with last := now }, by simp [get_put], rfl, ?_⟩
+      have : i ∈ keys s := by rw [← get_isSome_iff_mem, hg]; rfl
+      simp [keys_put, this]
+
 end
 
 /-! ## Non-vacuity: concrete histories (ids `Nat`, client info and versions `String`) -/
@@ -259,6 +293,10 @@ example :
     ∧ ((run cfgEx [(0, .create 7 "a" "v"), (3, .create 7 "b" "w")]).1.map (fun p => (p.1, p.2.client, p.2.created)))
         = [(7, "b", 3)] := by decide
 
+/-- idle for a year, then one more message with the session id: the session is still there, freshly stamped -/
+example : (run cfgEx [(0, .create 7 "a" "v"), (31536000, .message (some 7) .handlerReturned)]).1.map
+    (fun p => (p.1, p.2.last)) = [(7, 31536000)] := by decide
+
 /-- two managers, interleaved creates with the SAME id: each keeps its own session -/
 example : (runPairFrom cfgEx (([] : Store Nat String String), []) [(true, 0, .create 7 "a" "v"), (false, 1, .create 7 "b" "w"),
       (true, 2, .delete 7)]).1.2.map (fun q => (q.1, q.2.client))
@@ -271,47 +309,5 @@ is about a non-empty store -/
 example : (5 : Nat) ∉ keys (run cfgEx (histEx.take 3)).1
     ∧ keys (step cfgEx (run cfgEx (histEx.take 3)).1 3 (.init (some 7) 5 none (some "2024-11-05"))).1
         = [7, 9, 5] := by decide
-
-/-! ## The text of a session id (`generate_session_id`, regenerated from `server/session/base.py`) -/
-section
-open Verif.Gen.SessionId Verif.Model.SessionId
-
-/-- The translator covered `generate_session_id`. -/
-theorem c19_session_id_translated : translatable = true := by decide
-
-/-- For every canonical uuid text (8-4-4-4-12 lower-case hex digits joined by `-`) the session id
-is the 32 hex digits without the dashes: 32 characters, all hexadecimal, no `-`. -/
-theorem c19_session_id_format (p : Parts) (h : p.Canonical) :
-    sessionIdOfUuid p.text = p.hex
-    ∧ (sessionIdOfUuid p.text).length = 32
-    ∧ (∀ x ∈ sessionIdOfUuid p.text, isHex x = true)
-    ∧ '-' ∉ sessionIdOfUuid p.text := by
-  have ht := sessionId_text rfl p h
-  obtain ⟨pa, pb, pc, pd, pe, hx⟩ := h
-  refine ⟨ht, ?_, ?_, ?_⟩
-  · rw [ht]; simp [Parts.hex, pa, pb, pc, pd, pe]
-  · rw [ht]; exact hx
-  · rw [ht]
-    intro hm
-    have := hx _ hm
-    revert this; decide
-
-/-- Ids are as unique as the uuids: two canonical uuid texts with the same session id are the
-same text.  (The freshness of `uuid4` itself is the trusted hypothesis of `c19_ids_unique`.) -/
-theorem c19_session_id_injective (p q : Parts) (hp : p.Canonical) (hq : q.Canonical)
-    (h : sessionIdOfUuid p.text = sessionIdOfUuid q.text) : p.text = q.text := by
-  rw [sessionId_text rfl p hp, sessionId_text rfl q hq] at h
-  exact text_injective p q hp hq h
-
-def uuidEx : Parts :=
-  { a := "123e4567".toList, b := "e89b".toList, c := "42d3".toList, d := "a456".toList, e := "426614174000".toList }
-
-example : uuidEx.Canonical := by
-  refine ⟨rfl, rfl, rfl, rfl, rfl, ?_⟩
-  decide
-
-example : sessionIdOfUuid "123e4567-e89b-42d3-a456-426614174000".toList
-    = "123e4567e89b42d3a456426614174000".toList := by decide
-end
 
 end Verif.Props.C19
